@@ -372,6 +372,7 @@ class CommProp(props.BaseProp):
         if missing:
             res["corr_errors"].append("implementation produced no output for %d cases (crash?) e.g. %s"
                                       % (len(missing), missing[:3]))
+        oracle_fail, model_fail = [], []
         # fresh processes: the same cases again, outputs must be identical
         for k in range(1, self.nproc):
             impl_k, errs = self.run_impl(cases, wd, "%s_p%d" % (tag, k))
@@ -382,8 +383,8 @@ class CommProp(props.BaseProp):
                     continue
                 d = gv.diff_case(b, a)
                 if d:
-                    res["failing"].append((c, "property oracle: a fresh process returns a different result: " + d,
-                                           "counterexample"))
+                    oracle_fail.append((c, "property oracle: a fresh process returns a different result: " + d,
+                                        "counterexample"))
         # model
         todo = []
         for c in cases:
@@ -412,11 +413,13 @@ class CommProp(props.BaseProp):
                 a, b = normalise(impl[c["id"]], mo)
                 d = gv.diff_case(a, b)
                 if d:
-                    res["failing"].append((c, "implementation differs from the model: " + d, self.diff_kind))
+                    model_fail.append((c, "implementation differs from the model: " + d, self.diff_kind))
         for c in cases:
             if c["id"] in impl:
                 for msg in self.oracle(c, impl[c["id"]]):
-                    res["failing"].append((c, "property oracle: " + msg, "counterexample"))
+                    oracle_fail.append((c, "property oracle: " + msg, "counterexample"))
+        # inputs on which the property itself fails are reported before model disagreements
+        res["failing"] = oracle_fail + model_fail
         return res
 
     def shrink_candidates(self, c):
@@ -535,7 +538,8 @@ FAMILY_KINDS = ["true", "true", "true", "dup", "omit", "cancel", "cancel", "fore
 
 class C12Prop(CommProp):
     id = "C12"
-    quick_n, thorough_n = 700, 12000
+    diff_kind = "counterexample"   # the property fixes both values exactly: any difference violates it
+    quick_n, thorough_n = 2500, 60000
     rule = ("graphs of all 96 GraphSpecs, 1-8 integer names inserted out of sorted order, 1-2n edges (parallel "
             "edges, self-loops, re-added pairs where the specs allow them), weights all-NaN or integers 1-4; per graph "
             "4 families of node sets drawn from: true partitions, one element duplicated, one omitted, one omitted "
@@ -582,7 +586,39 @@ class C12Prop(CommProp):
         return ks
 
 
+def clustered_graph(r):
+    """2-4 small cliques joined in a ring by single edges: several levels of aggregation"""
+    k = 2 + r.below(3)
+    sizes = [2 + r.below(2 if k == 4 else 3) for _ in range(k)]
+    d = r.below(3) == 0
+    wmode = "nan" if r.below(3) == 0 else "int"
+    names = r.shuffle(range(1, 1 + sum(sizes)))
+    groups, at = [], 0
+    for sz in sizes:
+        groups.append(names[at:at + sz])
+        at += sz
+    edges = []
+
+    def add(u, v, heavy):
+        if d and r.below(2):
+            u, v = v, u
+        edges.append((u, v, None if wmode == "nan" else (2 + r.below(3) if heavy else 1), None))
+        if d and r.below(3) == 0:
+            edges.append((v, u, None if wmode == "nan" else 1 + r.below(2), None))
+    for g in groups:
+        for a in range(len(g)):
+            for b in range(a + 1, len(g)):
+                add(g[a], g[b], True)
+    for gi in range(k if k > 2 else 1):
+        add(r.pick(groups[gi]), r.pick(groups[(gi + 1) % k]), False)
+    sp = (1 if d else 0, 0, 1, r.pick([0, 1, 2]), r.below(2), r.below(2))
+    return {"spec": sp, "nodes": [(x, None) for x in r.shuffle(names)], "edges": edges, "wmode": wmode,
+            "names": names}
+
+
 def louvain_graph(r, nmax, i):
+    if i % 5 == 3:
+        return clustered_graph(r)
     d = r.below(2)
     m = 1 if r.below(4) == 0 else 0
     s = 1 if r.below(3) else 0
@@ -594,9 +630,10 @@ def louvain_graph(r, nmax, i):
 
 class C13Prop(CommProp):
     id = "C13"
-    quick_n, thorough_n = 450, 8000
+    quick_n, thorough_n = 1500, 30000
     rule = ("graphs with 1-10 integer names (insertion order differs from sorted order), undirected and directed, "
-            "single- and multi-edge, with and without self-loops, 1-3n edges, all weights NaN or integers 1-4; "
+            "single- and multi-edge, with and without self-loops, 1-3n edges, all weights NaN or integers 1-4; every "
+            "5th graph is 2-4 cliques of 2-4 nodes joined in a ring (up to 12 nodes, several aggregation levels); "
             "louvain_partitions + louvain_communities with weighted = (weights are integers, 90%), seed 0..20, "
             "resolution in {1/4,..,2} or None, threshold in {0, 1e-7, 0.1, None}; each call under a 2 s watchdog; "
             "4% of graphs have no edge; 5% of calls are unseeded (oracle only).  The model receives the shuffle "
@@ -670,7 +707,7 @@ WTS = [0.1, 0.2, 0.3]
 
 class C17Prop(CommProp):
     id = "C17"
-    quick_n, thorough_n = 170, 2500
+    quick_n, thorough_n = 220, 5000
     nproc = 3
     want_repro = True
     rule = ("tie-rich graphs (paths, cycles, complete, stars, circulants, grids, two cliques with a bridge, random) "
@@ -741,6 +778,70 @@ C12 = props.register(C12Prop())
 C13 = props.register(C13Prop())
 C17 = props.register(C17Prop())
 
-C12.manifest = {"text": "", "note": "", "technique": ""}
-C13.manifest = {"text": "", "note": "", "technique": ""}
-C17.manifest = {"text": "", "note": "", "technique": ""}
+C12.manifest = {
+    "text": "Unbounded, axiom-free theorems over a generic name type with decidable equality: (1) C12_is_partition: the "
+            "repaired partition test (scan all names; reject a non-node or a repeated name; compare counts) is true IFF "
+            "the communities are pairwise disjoint, contain only nodes and cover every node (pigeonhole over NoDup "
+            "lists); C12_not_partition_rejected / C12_rejects: anything else makes modularity return NotAPartition; "
+            "(2) C12_modularity(+_of_partition): the value partitions.rs computes step by step (per-node out/in/undirected "
+            "degrees with self-loops counted twice, their sums, m, the induced subgraph's edge weight) equals Newman's "
+            "closed formula sum_c L_c/m - gamma*Kout_c*Kin_c/m^2 (undirected L_c/m - gamma*(K_c/2m)^2) with L_c, K_c, m "
+            "defined directly on the edge multiset (parallel edges individually, a self-loop once in L_c and twice in "
+            "K_c), for directed and undirected graphs, every resolution, every family of duplicate-free sets.",
+    "note": "The theorems are about the list-level computations of Spec/PartitionDef.v (node list + weighted edge "
+            "multiset). The twelve-field state model (Model/Partition.v: get_subgraph, size, the degree maps of "
+            "Model/Query.v) is what the correspondence compares with the implementation (is_partition value, outcome "
+            "kind, modularity within 1e-9 relative, NaN on edgeless graphs); that the state-level model equals the "
+            "list-level computation and Newman's formula is evaluated on every generated case (observation 210), not "
+            "proved (it needs the coherence invariant of C02/C09). Independent oracle: Newman's formula recomputed in "
+            "Python (fractions) from the implementation's get_all_edges, and the set-theoretic partition test. Weights in "
+            "generated cases are NaN or small integers (exact in binary64); negative weights / infinite intermediate "
+            "values are outside the modelled domain. Defect F8 repaired (fix: 2289a94). Axioms: none.",
+    "technique": "Coq proof (NoDup/incl pigeonhole; sum exchange over the edge list; ring/field over Q) + differential "
+                 "correspondence vs vm_compute model + exact-arithmetic oracle",
+}
+C13.manifest = {
+    "text": "Verified checker: C13_check_levels_sound proves (unbounded, axiom-free) that a positive verdict of the "
+            "executable check_levels implies: non-empty list of levels, each level a partition of the node set into "
+            "non-empty communities, each level a coarsening of the previous one (every community a union of earlier "
+            "communities). The check evaluates it on the Louvain model's output for every generated case, and the exact "
+            "modularity of the singletons and of every level (modularity_abs, proved equal to Newman's formula in C12) "
+            "must be non-decreasing on single-edge graphs. C13_communities_is_last: louvain_communities = last level. "
+            "C13_move_gain / C13_move_gain_directed: moving a node from D to C changes modularity by exactly "
+            "(gain C - gain D)/2m resp. /m with the gains the code compares (field over Q), so with the repaired scan "
+            "order every accepted move strictly increases modularity.",
+    "note": "PARTIAL: termination of the local-moving loop and the partition/nesting invariant are NOT proved for the "
+            "model (the model carries explicit fuel; OutOfFuel would be reported as 'does not return'); they are "
+            "established per generated case by the verified checker on the model's output and by the property oracle on "
+            "the implementation's output (non-empty, partition, nested, exact modularity non-decreasing and first level "
+            ">= singletons on single-edge graphs, communities = last level, 2 s watchdog, no panic). The move-gain "
+            "theorems are algebra on the bookkeeping quantities; that the model's Stot / neighbour weights equal K_X / "
+            "k_uX is not proved. Correspondence: the model (transcription of louvain.rs after the repairs) receives the "
+            "shuffle order that the implementation's own rand version derives from the seed (the harness replays "
+            "StdRng::seed_from_u64(seed) + shuffle for every level size) and the levels are compared exactly as sets of "
+            "sets, except on runs where the exact model meets a tie between unequal operands (binary64 may round the "
+            "two sides differently): there only outcome codes and checker verdicts are compared (about 12% of runs). "
+            "NaN weights with weighted=true are outside the modelled domain. Defects F16 (hang on digraphs, fix: "
+            "73bce3f) and F17 (hash-order ties, fix: 6c1ce46) repaired. Axioms: none.",
+    "technique": "verified checker in Coq (check => Prop-level spec) + differential correspondence vs vm_compute "
+                 "model with the real RNG stream + exact-arithmetic oracle with watchdog",
+}
+C17.manifest = {
+    "text": "Hash-order independence of the seeded Louvain model, unbounded and axiom-free: C17_scan_order_canonical "
+            "(insertion sort of two permutations of a candidate list with distinct community ids is the same list), "
+            "C17_best_com_order_independent (the community chosen for a node does not depend on the iteration order of "
+            "the candidate HashMap), C17_neighbor_weights_order_independent (the weights towards neighbouring "
+            "communities do not depend on the iteration order of the neighbour HashSet). The model has no other hidden "
+            "input: the shuffle order is an explicit argument derived from the seed.",
+    "note": "Reproducibility across repeated calls (20x in process), rayon pools of 1/4/16 threads and 3 fresh "
+            "processes is OBSERVED on the implementation by the oracle (outputs identical as sets of sets / node list + "
+            "sorted edge list) for seeded louvain_partitions, louvain_communities and fast_gnp_random_graph (directed "
+            "and undirected) on tie-rich graphs with weights 1 and 0.1/0.2/0.3; it is not a theorem about std's "
+            "RandomState, rayon or binary64 rounding. fast_gnp_random_graph has no model here (it belongs to C16); the "
+            "sentence about all non-randomised algorithms is covered only for modularity (C12 correspondence) and the "
+            "Louvain sub-steps. Louvain runs with integer weights are also compared with the Coq model (tie-free runs "
+            "exactly). Defect F17 repaired (fix: 6c1ce46: deterministic candidate order + float sums accumulated in a "
+            "fixed order in louvain.rs, degree.rs, query.rs size, partitions.rs). Axioms: none.",
+    "technique": "Coq proof (Permutation / sorting canonicity) + repeated-call / cross-pool / cross-process oracle on "
+                 "the implementation + correspondence vs vm_compute model",
+}
